@@ -18,14 +18,17 @@ SPEC = {
                    "octal/decimal/underscores, other goroutines), 5 outcome-changing mutations (sentinel missing/odd/late, "
                    "pairing shifted, invalid pc spellings incl. > 2^64, earlier ' pc=', sigpanic placement, frames "
                    "without pc, header and terminator variants, cut text, changed pcs, > 16 frames), 2 relocation pairs "
-                   "(sentinel and pcs shifted, incl. wrap-around), 1 in 10: synthetic report over REAL pcs of functions with "
+                   "(sentinel and pcs shifted, incl. wrap-around), 1 in 10: synthetic report over REAL pcs of stacks in which "
+                   "instantiated generic functions are followed outwards by same-package functions and methods (also a "
+                   "real crash child generic-chain), 1 in 10: synthetic report over REAL pcs of functions with "
                    "60..300-byte names (encoded name near / beyond 4096 bytes within 16 frames), 1 in 50: a real and a "
                    "synthetic report each with and without an inserted non-PC line of 64 KiB..200 KB before the running "
                    "goroutine, 3 synthetic reports, 2 random texts (one in 40 cases each "
                    "instead runs strconv.ParseUint(s,0,64) resp. fmt.Sscanf(line,\"sentinel %x\") directly on generated "
                    "numerals against the model's parse_uint0 / scan_sentinel). distinct = distinct "
                    "case lines; every case compares status, pc list and name with the model and evaluates the oracles "
-                   "(shape, 16-frame cap, length <= 4096 and truncation marker, equal projection -> equal name, equal pcs -> equal name, relocation "
+                   "(shape, 16-frame cap, length <= 4096 and truncation marker, DecodeStack(name) = one line Function:line,+0xoff "
+                   "per frame runtime.CallersFrames reports for the pcs [name-lists-frames], equal projection -> equal name, equal pcs -> equal name, relocation "
                    "invariance, genuine frames) on the implementation's output"),
     ],
     "technique": "Coq proof (loop invariant: the one-pass parser of parseStackPCs factors through a phase-structured "
